@@ -148,6 +148,10 @@ Definition verify_chunk (offset requestedLimit : Z) (data : list Z) : option (li
   end.
 End Verify.
 
+(* ---------- verifier.verify (WithVerify(true)): the WHOLE received chunk is hashed ---------- *)
+Definition vq_verify (sha : list Z -> list Z) (h : hwin) (data : list Z) : bool :=
+  bytes_eqb (sha data) (w_hash h).
+
 (* ---------- verifier: the hash queue ---------- *)
 Record vstate := { q_hashes : list hwin; q_offset : Z }.
 
